@@ -90,6 +90,15 @@ func (f *Fabric) Dials(addr string) int {
 
 var errRefused = errors.New("connection refused (no listener on the fabric)")
 
+// refusedError is what a dial to an address without a listener returns. It is not temporary
+// (grpc.FailOnNonTempDialError makes a blocking dial give up on it at once instead of retrying
+// until the dial timeout).
+type refusedError struct{ addr string }
+
+func (e refusedError) Error() string   { return "dial " + e.addr + ": " + errRefused.Error() }
+func (e refusedError) Unwrap() error   { return errRefused }
+func (e refusedError) Temporary() bool { return false }
+
 // Dialer is the grpc context dialer of the fabric.
 func (f *Fabric) Dialer(ctx context.Context, addr string) (net.Conn, error) {
 	f.mu.Lock()
@@ -107,7 +116,7 @@ func (f *Fabric) Dialer(ctx context.Context, addr string) (net.Conn, error) {
 	l := f.listeners[addr]
 	f.mu.Unlock()
 	if l == nil {
-		return nil, fmt.Errorf("dial %s: %w", addr, errRefused)
+		return nil, refusedError{addr}
 	}
 	c, err := l.DialContext(ctx)
 	if err != nil {
